@@ -12,3 +12,90 @@ func VerifC08_StrongQuorumExact() {
 	sym.Cover("reached")
 	sym.Assert(IsStrongQuorum(part, whole) == (3*part >= 2*whole), "strong-quorum-exact")
 }
+
+// VerifC08_WeakQuorum: anything counted as a weak quorum strictly exceeds one third.
+func VerifC08_WeakQuorum() {
+	part, whole := sym.Int64("part"), sym.Int64("whole")
+	sym.Assume(sym.And(0 <= part, sym.And(part <= whole, whole < 1<<61)))
+	sym.Cover("reached")
+	sym.Assert(sym.Implies(hasWeakQuorum(part, whole), 3*part > whole), "weak-quorum-exceeds-one-third")
+	// and it is not needlessly strict: one third plus one unit always counts
+	sym.Assert(sym.Implies(3*part > whole+3, hasWeakQuorum(part, whole)), "weak-quorum-tight-within-one-unit")
+}
+
+// VerifC08_Intersection: any two strong quorums overlap in more than any
+// tolerated faulty coalition (f with 3f < T), and a weak quorum exceeds it.
+func VerifC08_Intersection() {
+	t, a, b, f := sym.Int64("total"), sym.Int64("a"), sym.Int64("b"), sym.Int64("f")
+	sym.Assume(sym.And(1 <= t, t < 1<<60))
+	sym.Assume(sym.And(sym.And(0 <= a, a <= t), sym.And(0 <= b, b <= t)))
+	sym.Assume(sym.And(sym.And(0 <= f, f <= t), 3*f < t))
+	sym.Assume(sym.And(IsStrongQuorum(a, t), IsStrongQuorum(b, t)))
+	sym.Cover("two-strong-quorums")
+	sym.Assert(a+b-t > f, "strong-quorums-intersect-beyond-faulty-power")
+	sym.Assert(3*(a+b-t) >= t, "overlap-at-least-one-third")
+	w := sym.Int64("w")
+	sym.Assume(sym.And(0 <= w, w <= t))
+	sym.Assert(sym.Implies(hasWeakQuorum(w, t), w > f), "weak-quorum-exceeds-faulty-power")
+}
+
+// verifSymTable: n entries with arbitrary positive big-integer powers.
+func verifSymEntries(n int) PowerEntries {
+	es := make(PowerEntries, n)
+	for i := range es {
+		p := StoragePower{Int: sym.BigInt("power")}
+		sym.Assume(p.Sign() > 0)
+		es[i] = PowerEntry{ID: ActorID(i + 1), Power: p, PubKey: VerifKey(i)}
+	}
+	return es
+}
+
+// VerifC08_Scaling: for power tables with arbitrary positive big-integer
+// powers (any magnitude): scaled powers are in [0,65535], sum to at most
+// 65535, preserve order, and PowerTable.Add agrees with PowerEntries.Scaled.
+func VerifC08_Scaling() {
+	n := 2 + sym.Tier()*2
+	es := verifSymEntries(n)
+	scaled, total, err := es.Scaled()
+	sym.Assert(err == nil, "scaling-succeeds-on-positive-powers")
+	if err != nil {
+		return
+	}
+	sym.Cover("scaled")
+	var sum int64
+	for i := range scaled {
+		sym.Assert(sym.And(scaled[i] >= 0, scaled[i] <= 0xffff), "scaled-in-range")
+		sum += scaled[i]
+	}
+	sym.Assert(sum == total, "total-is-sum")
+	sym.Assert(total <= 0xffff, "total-at-most-65535")
+	for i := range es {
+		for j := range es {
+			if i != j {
+				sym.Assert(sym.Implies(es[i].Power.GreaterThanEqual(es[j].Power), scaled[i] >= scaled[j]), "scaling-preserves-order")
+			}
+		}
+	}
+}
+
+// VerifC08_TableAdd: PowerTable.Add over the same entries gives the same
+// scaled values as PowerEntries.Scaled and passes Validate.
+func VerifC08_TableAdd() {
+	n := 2 + sym.Tier()
+	es := verifSymEntries(n)
+	scaled, total, err := es.Scaled()
+	sym.Assume(err == nil)
+	pt := NewPowerTable()
+	err = pt.Add(es...)
+	sym.Assert(err == nil, "add-succeeds")
+	if err != nil {
+		return
+	}
+	sym.Cover("added")
+	sym.Assert(pt.ScaledTotal == total, "table-total-agrees")
+	for i := range es {
+		p, _ := pt.Get(es[i].ID)
+		sym.Assert(p == scaled[i], "table-scaled-agrees")
+	}
+	sym.Assert(pt.Validate() == nil, "validate-accepts-what-add-builds")
+}
